@@ -105,12 +105,13 @@ Example process3_only_closes :
   /\ racc dev_all I2 [EvStart a00] = false.
 Proof. vm_compute. auto. Qed.
 
-(* ---- 4. not even the hierarchy part of img_wf survives a recovery IN THE MODEL, with no plugin involved: the crash
-        comes right after the first action is marked; the repair resets action, sequence, block and plan to
-        NotStarted in memory; Resume.v's flush rule (any write equal to the in-memory value is accepted at any time -
-        an over-approximation of when the engine writes repaired objects) lets the sequence be written NotStarted
-        while its action is still durably (Running, 0).  An invariant for the resumed automaton needs a sharper
-        flush rule in Resume.v first. ---- *)
+(* ---- 4. the flush rule of Resume.v used to accept any write equal to the in-memory value at any time: the crash
+        comes right after the first action is marked; the repair resets action, sequence, block and plan to NotStarted
+        in memory; the sequence could then be written NotStarted while its action was still durably (Running, 0),
+        breaking the hierarchy part of img_wf with no plugin involved.  Resume.flush has been sharpened (a NotStarted
+        value goes over a started object only after the terminal plan write, as End's writeEverything does): the
+        resumed automaton now REJECTS that write.  (Edited by the C09/C10 owner together with the change of
+        Resume.flush, on the coordinator's request.) ---- *)
 Definition sh4 : shape :=
   {| sh_groups := no_groups;
      sh_blocks := [ {| bs_groups := no_groups; bs_seqs := [[0]]; bs_conc := 1; bs_tol := 0%Z |} ] |}.
@@ -126,9 +127,9 @@ Definition racc4 (ir : dimg * reason) (tr : list event) : bool :=
   end.
 
 Example flush_run_accepted : exists s, run sh4 init tr4 = Some s. Proof. vm_compute. eauto. Qed.
-Example flush_breaks_hierarchy :
+Example flush_no_longer_breaks_hierarchy :
   img_wf sh4 (fst J1) = true
-  /\ racc4 J1 [w (OSeq 0 0) NotStarted 0 false] = true
+  /\ racc4 J1 [w (OSeq 0 0) NotStarted 0 false] = false
   /\ ist (fst J2) OPlan = Running /\ ist (fst J2) (OSeq 0 0) = NotStarted /\ ist (fst J2) (OAct a00) = Running
   /\ img_wf sh4 (fst J2) = false.
 Proof. vm_compute. auto 10. Qed.
